@@ -11,6 +11,7 @@ mod incl;
 mod load;
 mod modelops;
 mod modops;
+mod edit;
 mod sx;
 
 use std::io::{BufRead, Write};
@@ -46,6 +47,7 @@ fn main() {
             "LOADCLEAN" => load::run_loadclean(&case),
             "BANNER" => load::run_banner(&case),
             "SORTDOC" => load::run_sortdoc(&case),
+            "EDIT" => edit::run(&case),
             "TOKENS" => load::run_tokens(&case),
             _ => panic!("unknown case kind {kind}"),
         };
